@@ -44,3 +44,12 @@ chk("C04", "exploration", "history replay against a reference claim model with a
     "HS256-signed tokens.",
     "Trusted: Python json as reference reader; the harness' time() replaces the libc clock for the statically linked library. "
     "Integers beyond int64 and escaped NULs are unjudged (jansson refuses them).", "DESIGN.md 3/C04")
+chk("C06", "exploration", "sanitizers (gcc ASan+UBSan+LSan; clang libFuzzer+ASan+UBSan) over generated and coverage-guided tokens + conservative well-formedness classifier",
+    "3e4 (quick) / 5e5 (thorough) grammar-derived near-valid tokens from 20 generator classes plus 4e5 / 2e7 coverage-guided "
+    "libFuzzer executions (dictionary of alg names and JSON punctuation, inputs to 64 KiB) are each verified by 10 checkers "
+    "(both providers x no key/HS256/RS256/ES256/EdDSA, all with a reading callback) under sanitizers; every accepted token and "
+    "the whole fuzz corpus are then judged offline by a conservative classifier (accepted => not definitely malformed). Leaks "
+    "are checked by LeakSanitizer at process exit and per input by libFuzzer.",
+    "Trusted: sanitizers see libjwt code only (jansson/OpenSSL/GnuTLS uninstrumented); red-zone tools miss intra-object "
+    "overflows. clang's -fsanitize=null is disabled in the fuzz flavour (false alarm on ll.h's container_of idiom, which gcc's "
+    "UBSan does not flag). NUL-prefix and over-deep JSON are ambiguous and unjudged.", "DESIGN.md 3/C06")
